@@ -207,11 +207,16 @@ CLAIMED = {
    text=("Lean theorems for every string: detect_format never raises on non-empty input (detect_total, via splitlines_ne_nil), raises the "
          "no-captions error on the empty string, returns a reader only if its own detect accepts and all earlier readers in the documented order "
          "reject (detect_first_accepting), returns None only if all six reject (detect_none_iff); reader order, markers, SCC header and the MicroDVD "
-         "pattern are regenerated from /repo and pinned. Correspondence: every word of length <=3 (quick) / <=4 (thorough) over 27 symbols, random "
+         "pattern are regenerated from /repo and pinned. Own output: for the three writers modelled as whole documents the third clause is a theorem - "
+         "the SRT writer's document for ANY cue list with visible text whose lines carry no other format's marker is detected as SRT (detect_own_srt: a marker "
+         "cannot arise across line boundaries or from index/timing lines), the WebVTT writer's document for ANY text lines is detected as WebVTT (detect_own_vtt: "
+         "'<' is escaped, so '</tt>' cannot occur), the MicroDVD writer's document for lines without '</tt>' is detected as MicroDVD (detect_own_mdvd); the "
+         "writer models are tied to the writers document by document in this check. Correspondence: every word of length <=3 (quick) / <=4 (thorough) over 27 symbols, random "
          "longer words, every truncation of writer outputs, and all six writers' own outputs, evaluated on the implementation, the Lean model and the spec."),
    ref="§3 C20", technique="Lean 4 proof over an executable model + translator-pinned constants + differential correspondence (native driver)",
    note=NOTE_COMMON + "Modelled, not verified: Python's str.lower() beyond ASCII (two exotic code points generated), str.splitlines/isdigit classes (generated from the interpreter). "
-        "'own output is detected and readable' is established by execution on writer outputs, not by a theorem."),
+        "'own output is detected' is a theorem for SRT, WebVTT and MicroDVD (captions made of text lines, one language); for DFXP, SAMI and SCC, for styled/positioned "
+        "captions and for 'the detected reader reads the document' it is established by execution on writer outputs (C08's srt_hop / vtt_hop / mdvd_hop prove readability for the three)."),
 }
 
 def main():
